@@ -17,7 +17,9 @@ RULE = ('Hypothesis-generated histories over a small resource tree (root, sub-ma
         'enclosing_map[suffix], get(path)(), attribute and item chains and get() on static snapshots taken at '
         'generated moments, SimpleLoop.switch(handle, clear_current, clear_next) for world handles - '
         'interleaved with handle.clear() and with replacement of a handle in the map by a new one (the old handle '
-        'stays in the program\'s hands and keeps being accessed). Oracle: per handle a cached flag, the current object and a load '
+        'stays in the program\'s hands and keeps being accessed) and with loads armed to FAIL once (load() raises, '
+        'the program catches it and carries on: nothing was loaded, cached must say so and the next access '
+        'loads). Oracle: per handle a cached flag, the current object and a load '
         'counter: every access returns the identical object as the first access since the last clear, load() '
         'runs exactly on the first access after construction/clear, handle.cached equals the model flag after '
         'every step. Non-trivial = a falsy/odd value accessed >= 2 times through >= 2 different access paths '
@@ -62,11 +64,22 @@ LAYOUT = [(['ha'], False), (['hb'], False), (['sub', 'hc'], False), (['sub', 'de
 ACCESS = ['call', 'root_item', 'chained', 'enclosing', 'get_call', 'snap_attr', 'snap_item', 'snap_get']
 
 
+class LoadFailed(Exception):
+    """what a load() of the program under test raises when its file is missing"""
+
+
 class Counting(desper.Handle):
+    fail_next = False
+
     def __init__(self, run, ix, maker):
         self.run, self.ix, self.maker = run, ix, maker
 
     def load(self):
+        if self.fail_next:
+            # a load that fails (transient I/O error): nothing was loaded, the program catches it and carries on
+            self.fail_next = False
+            self.run.failed[self.ix] += 1
+            raise LoadFailed(self.ix)
         self.run.loads[self.ix] += 1
         obj = self.maker()
         self.run.last_loaded[self.ix] = obj
@@ -76,7 +89,9 @@ class Counting(desper.Handle):
 def decode_op(t):
     sel, p = t
     kind = ('access', 'access', 'access', 'access', 'access', 'access', 'clear', 'clear', 'snapshot', 'switch',
-            'replace', 'orphan')[sel % 12]
+            'replace', 'orphan', 'failnext')[sel % 13]
+    if kind == 'failnext':
+        return ['failnext', p % 12]
     if kind == 'replace':
         return ['replace', p % 6]
     if kind == 'orphan':
@@ -91,7 +106,7 @@ def decode_op(t):
 
 
 def strategy():
-    op = st.tuples(st.integers(0, 11), st.integers(0, 12 * 8 * 4 - 1)).map(decode_op)
+    op = st.tuples(st.integers(0, 12), st.integers(0, 12 * 8 * 4 - 1)).map(decode_op)
     return st.fixed_dictionaries({
         'kinds': st.lists(st.integers(0, len(KINDS) - 1), min_size=5, max_size=5),
         'ops': worldops.chunked(op, 40)})
@@ -104,6 +119,8 @@ class Run:
         self.step_ix = -1
         n = len(LAYOUT)
         self.loads = [0] * n
+        self.failed = collections.Counter()
+        self.m_failed = collections.Counter()
         self.last_loaded = [None] * n
         self.m_cached = [False] * n
         self.m_obj = [None] * n
@@ -185,6 +202,8 @@ class Run:
                     self.cleared_between, self.kind_name):
             arr.append(arr[ix])
         self.paths_used.append(set(self.paths_used[ix]))
+        self.failed[new_ix], self.m_failed[new_ix] = self.failed[ix], self.m_failed[ix]
+        self.failed[ix] = self.m_failed[ix] = 0
         h = Counting(self, ix, old.maker)
         self.handles[ix] = h
         self.loads[ix] = self.m_loads[ix] = self.accesses_since[ix] = 0
@@ -201,6 +220,24 @@ class Run:
         if self.m_cached[new_ix]:
             self.flags['cached_handle_replaced_in_the_map'] += 1
 
+    def op_failnext(self, sel):
+        """the next load() of that handle raises (once)"""
+        ix = self.pick(sel)
+        if ix >= len(self.handles) or (ix < len(LAYOUT) and LAYOUT[ix][1]):
+            return
+        self.handles[ix].fail_next = True
+        self.flags['load_armed_to_fail'] += 1
+
+    def load_failed(self, ix, how):
+        """an access raised LoadFailed: legitimate exactly when that access had to load and the load was armed"""
+        self.m_failed[ix] += 1
+        if self.m_cached[ix] or self.failed[ix] != self.m_failed[ix]:
+            self.viol('load_ran_again_although_cached', handle=self.name(ix), how=how, failed_loads=self.failed[ix],
+                      expected=self.m_failed[ix])
+        # nothing was loaded: the model stays "not cached", the next access loads (check_flags compares cached)
+        self.flags['access_whose_load_failed'] += 1
+        self.after_failure = getattr(self, 'after_failure', set()) | {ix}
+
     def op_orphan(self, sel):
         """access a replaced handle directly"""
         if not self.orphans:
@@ -211,6 +248,8 @@ class Run:
         self.last = ix
         try:
             got = self.handles[ix]()
+        except LoadFailed:
+            return self.load_failed(ix, 'call')
         except Exception as exc:
             self.viol('access_raised', handle=self.name(ix), how='call', exception=repr(exc))
         self.expect_access(ix, got, 'call')
@@ -263,8 +302,12 @@ class Run:
                     got = hh()
         except PropertyViolation:
             raise
+        except LoadFailed:
+            return self.load_failed(ix, how)
         except Exception as exc:
             self.viol('access_raised', handle=path, how=how, exception=repr(exc), value=self.kind_name[ix])
+        if ix in getattr(self, 'after_failure', ()):
+            self.flags['access_after_a_failed_load'] += 1
         self.expect_access(ix, got, how)
         self.flags['access:' + how] += 1
 
